@@ -332,14 +332,24 @@ CLAIMED = {
         design="DESIGN.md §3 C15", technique="Lean 4 proof + translator for constants + bounded-exhaustive/random correspondence"),
     "C08": dict(
         engine="pool",
-        text="Lean 4 theorems over an executable model of memorypool.c (every op, every size_t argument, every op "
-             "sequence by induction): invariant, in-bounds/aligned/disjoint blocks, refused => unchanged, contents "
-             "preserved by realloc, reset keeps prefix. Model tied to the C code each run by op-sequence "
-             "correspondence (bounded-exhaustive + random, ASan/UBSan) and an independent interval-set oracle. "
-             "Connection-level 'request too large => 413/414/431' part is covered under C01/C02 engines, not here.",
-        note="Trusted: Lean kernel; propext/Classical.choice/Quot.sound only; hand-written model + correspondence "
-             "harness/h_pool.c; extractor for ALIGN_SIZE/page size. Non-ASan-poison pool variant only. API used as "
-             "documented (live blocks with their current size).",
+        text="Lean 4 theorems (45) over an executable model of memorypool.c (every op, every size_t argument, every op sequence by "
+             "induction) for BOTH build variants of the pool (ordinary, and the red-zone / ASan-poison variant with its per-byte "
+             "poison map; red-zone size and the form of the size-wrap test are regenerated): invariant, in-bounds / aligned (>= "
+             "_Alignof(max_align_t)) / disjoint blocks each owning its red zone, refused => unchanged, contents preserved by realloc "
+             "(relocation memcpy never overlaps), reset keeps exactly the requested prefix and zeroes the rest. Second sentence of "
+             "the property as theorems over C01's composed ConnRead model: arena_hard_bound (for every stream, segmentation, arena "
+             "size, pool config and level there is one arena of the configured size, all windows inside it, and a request that does "
+             "not fit ends in a recorded refusal: 413/414/431/501 or a close), refusal_by_stage, no_space_413_iff; and for the reply "
+             "head: header_build_in_bounds / footer_build_in_bounds (every store of build_header_response / add_user_headers lies "
+             "below the buffer size, also on runs that end in a refusal; refines C04's builder). Tie: op-sequence correspondence on "
+             "both pool builds (bounded-exhaustive + random, ASan/UBSan, poison map compared) with an independent interval-set "
+             "oracle; buffer-layer and composed engines against the real statics with the exact no-space status per stage; "
+             "byte-by-byte size sweeps of every part of the reply head across the fit/refuse boundary on the real daemon under the "
+             "pool-poisoning build; oversized requests on the real daemon.",
+        note="Trusted: Lean kernel; propext/Classical.choice/Quot.sound only; hand-written models + correspondence harness/h_pool.c "
+             "(two builds), h_mem.c, h_daemon.c; extractor for ALIGN_SIZE / red zone / wrap-test form / page size. arena_hard_bound "
+             "covers the external-polling branch of check_and_grow (the threaded modes' 500 is not modelled) and takes the reply as "
+             "sent. API used as documented (live blocks with their current size; reset with n <= size).",
         design="DESIGN.md §3 C08",
         technique="Lean 4 proof (invariant by induction over operations, refinement to live-block set) + model/code correspondence"),
 }
